@@ -1,6 +1,6 @@
 SPECIFICATION Spec
 CONSTANTS
-  Alphabet = {"a", "b", "A", "B", "é", "É", "ª", "\n"}
+  Alphabet <- Alpha8
   MaxLen = 3
   Families = {"lit", "altlit", "altgroup", "altfold", "prefix", "suffix", "contains", "altcontains", "altprefix", "class", "capture", "anchor", "dots"}
   EmitMode = "all"
